@@ -1412,8 +1412,10 @@ class Compiler:
 
         for name in node.names:
             if not node.local:
+                # each name gets its own item of an unpacked value
+                # (``__value`` is the whole tuple)
                 assignment += template(
-                    "rcontext[KEY] = __value", KEY=ast.Constant(
+                    "rcontext[KEY] = econtext[KEY]", KEY=ast.Constant(
                         str(name)))
 
         return assignment
